@@ -60,6 +60,34 @@ CHAINS = {
         "type Summary { multi property label := all_labels() }; "
         "type Draft { property label -> str }; type Final { property label -> str }; }",
     ],
+    'multiple-inheritance-drop-from-one-parent': [
+        "module default { type A { property x -> str; property a -> str }; "
+        "type B { property x -> str }; type C extending A, B; type D extending C; }",
+        "module default { type A { property a -> str }; "
+        "type B { property x -> str }; type C extending A, B; type D extending C; }",
+        "module default { type A { property a -> str }; "
+        "type B { property x -> str { default := 'b' } }; type C extending A, B; type D extending C; }",
+        "module default { type A { property x -> str; property a -> str }; "
+        "type B { property x -> str }; type C extending A, B; type D extending C; }",
+    ],
+    'bases-inserted-at-several-positions': [
+        "module default { type X { property x -> str }; "
+        "type A { property tag -> str { default := 'from A' } }; "
+        "type Y { property tag -> str { default := 'from Y' } }; "
+        "type B { property b -> str }; type D extending A, B; }",
+        "module default { type X { property x -> str }; "
+        "type A { property tag -> str { default := 'from A' } }; "
+        "type Y { property tag -> str { default := 'from Y' } }; "
+        "type B { property b -> str }; type D extending X, A, Y, B; }",
+        "module default { type X { property x -> str }; "
+        "type A { property tag -> str { default := 'from A' } }; "
+        "type Y { property tag -> str { default := 'from Y' } }; "
+        "type B { property b -> str }; type D extending Y, X, B; }",
+        "module default { type X { property x -> str }; "
+        "type A { property tag -> str { default := 'from A' } }; "
+        "type Y { property tag -> str { default := 'from Y' } }; "
+        "type B { property b -> str }; type D extending B; }",
+    ],
     'misc-objects': [
         "module default { scalar type Color extending enum<R, G>; abstract annotation note; "
         "type U { required property name -> str { annotation note := 'n' }; property color -> Color; "
